@@ -249,6 +249,14 @@ def run(c):
             tr, esc = history_trace(rng, cfg, wd, 0, 0, gaps=gaps)
             traces.append(tr)
             meta.append({'cfg': cfg, 'errors': esc, 'hits': len(gaps), 'gaps': gaps})
+    # the same unparsable text given for one setting, then for the other, in one process (both orders): each setting
+    # falls back to its own default whatever was parsed before
+    unp = [x for x in cfgs if 'bad' in (x['ck'], x['pk'])]
+    order = sorted(unp, key=lambda x: (x['pk'] != 'bad', str(x)))
+    for cfg in order + order[::-1]:
+        tr, esc = history_trace(rng, cfg, wd, 0, 0, gaps=[0, 1, 0, 2, 1, 1, 3])
+        traces.append(tr)
+        meta.append({'cfg': cfg, 'errors': esc, 'hits': 7, 'kind': 'unparsable-text-shared'})
     validate(c, traces, meta, 'history')
     # concurrent schedules
     traces, meta = gate_schedules(c, RACE_CFGS, wd, line_level=False, max_preemptions=8, max_runs=None)
